@@ -724,6 +724,30 @@ pub fn run(c: &Case) -> Outcome {
     }
 }
 
+/// libFuzzer entry: bring a decoded case into the domain of `strategy` / `capacity_strategy`
+pub fn fuzz_domain(c: &mut Case) -> bool {
+    c.width %= 4;
+    let bulk = c.ops.iter().any(|o| matches!(o, Op::BulkNodes(_) | Op::BulkEdges(..)));
+    if bulk {
+        // bulk fills belong to the u8 capacity class
+        c.width = 0;
+        c.ops.truncate(40);
+    } else {
+        c.ops.truncate(160);
+    }
+    for o in c.ops.iter_mut() {
+        match o {
+            Op::AddNode(k) => *k %= 3,
+            Op::AddEdge(k, ..) => *k %= 6,
+            Op::SetNode(_, k) | Op::SetEdge(_, k) => *k %= 4,
+            Op::Capacity(k, _) => *k %= 8,
+            Op::Extend(v) => v.truncate(4),
+            _ => {}
+        }
+    }
+    true
+}
+
 pub fn property() -> Property {
     Property {
         id: "C01",
@@ -735,7 +759,7 @@ pub fn property() -> Property {
         ],
         both_profiles: false,
         subs: vec![
-            sub("graph/history", 400_000, 4_000_000, strategy, run),
+            sub_fuzz("graph/history", 400_000, 4_000_000, strategy, run, fuzz_domain),
             sub("graph/u8-capacity", 12_000, 300_000, capacity_strategy, run),
         ],
     }
